@@ -4,10 +4,20 @@
    floating vectors are parallel to the integer ones), tensors (orientation tensor = direction (x) normal),
    schmid (every Schmid factor of 26 lattice loading directions within [-1/2, 1/2]), ranks (every ordered
    pair of systems has a rank, self-interaction has its own rank), threw (the family was refused) *)
-EXTENDS SlipSystems, Judge
+EXTENDS SlipSystems, SlipSystemsHCP, Judge
 Check(name, b) == IF b THEN {} ELSE {name}
+FailsHCP(o) ==
+  IF o.threw = 1 THEN {"hcp:family-refused"}
+  ELSE LET S == {CanonSys4(o.systems[i]) : i \in 1..Len(o.systems)} IN
+       Check("hcp:systems-set", S = FamilyHCP(o.b, o.n))
+       \cup Check("hcp:duplicates-up-to-sign", Cardinality(S) = Len(o.systems))
+       \cup Check("hcp:integer-orthogonality", \A i \in 1..Len(o.systems) : Dot4(o.systems[i][1], o.systems[i][2]) = 0)
+       \cup Check("hcp:unit-vectors", o.unit = 1) \cup Check("hcp:orthogonal-vectors", o.orth = 1)
+       \cup Check("hcp:orientation-tensors", o.tensors = 1) \cup Check("hcp:schmid-factor-range", o.schmid = 1)
+       \cup Check("hcp:interaction-ranks", o.ranksym = 1)
 Fails(o) ==
-  IF o.threw = 1 THEN {"family-refused"}
+  IF o.structure = "HCP" THEN FailsHCP(o)
+  ELSE IF o.threw = 1 THEN {"family-refused"}
   ELSE LET S == {CanonSys(o.systems[i]) : i \in 1..Len(o.systems)} IN
        Check("systems-set", S = Family(o.b, o.n))
        \cup Check("duplicates-up-to-sign", Cardinality(S) = Len(o.systems))
